@@ -137,6 +137,39 @@ func TestC07(t *testing.T) {
 			}
 			c.Ev.MarkExhaustive(fmt.Sprintf("%d index/property/call/statement forms x every ordered pair of %d values", len(forms), len(c07Values)))
 		})
+		c.Sub("string-coercions", func(s *Sub) {
+			// a one-character string for every code point of the Bangla block (and a few other digit-like or
+			// unusual characters), alone and after a digit, pushed through every place that may read a string as a number
+			var k int64
+			chars := []rune{}
+			for r := rune(0x0980); r <= 0x09FF; r++ {
+				chars = append(chars, r)
+			}
+			chars = append(chars, '0', '9', 'x', ' ', '.', '-', '+', 'e', '_', 0x0966, 0x0660, 0xFF11, 0x00B2, 0x2160, 0x3007, 0x1D7CE, 0x200D, 0xFEFF, 0x0301)
+			forms := []string{P + " arr[%[1]s];", "arr[%[1]s] = 1;", P + " " + bn.BRemove + "(arr, %[1]s);", P + " %[1]s - 1;", P + " 2 * %[1]s;", P + " %[1]s < 1;", P + " %[1]s | 1;", P + " ~%[1]s;", P + " -%[1]s;", P + " 1 << %[1]s;",
+				P + " " + bn.BAbs + "(%[1]s);", P + " " + bn.BMin + "(1, %[1]s);", P + " " + bn.BPow + "(%[1]s, 2);", P + " " + bn.BRound + "(%[1]s);", P + " %[1]s ** 2;", P + " %[1]s % 3;"}
+			for _, r := range chars {
+				if r == '"' {
+					continue
+				}
+				for _, txt := range []string{string(r), "1" + string(r), string(r) + "২"} {
+					k++
+					if !c.Mine(k) {
+						continue
+					}
+					var b strings.Builder
+					b.WriteString(c07Prelude)
+					for _, f := range forms {
+						b.WriteString(fmt.Sprintf(f, "\""+txt+"\"") + "\n")
+					}
+					// each statement fails or succeeds on its own: run them one program per form so that none hides the next
+					for _, f := range forms {
+						c.c07Program(s, "string-coercions", c07Prelude+fmt.Sprintf(f, "\""+txt+"\"")+"\n", "", true, true, "string-coercion")
+					}
+				}
+			}
+			c.Ev.MarkExhaustive(fmt.Sprintf("every code point of the Bangla block and %d other digit-like characters as a one- or two-character string x %d coercing forms", 19, len(forms)))
+		})
 		c.Sub("deep-nesting", func(s *Sub) {
 			if c.Shard != 0 {
 				return
